@@ -54,6 +54,8 @@ pub struct MetaRec {
     pub fl: u64,
     pub txid: u64,
     pub hash_ok: bool,
+    /// valid under the <= 0.10 header format (SHA3-256 over the same bytes, 32 bytes at offset 96)
+    pub legacy_ok: bool,
 }
 
 /// decode a header page image (at least 104 bytes)
@@ -71,18 +73,37 @@ pub fn decode_meta(b: &[u8]) -> Option<MetaRec> {
     let txid = u64_at(b, 88)?;
     let hash = u64_at(b, 96)?;
     let hash_ok = hash == meta_hash(meta_page, magic, version, pagesize, root, next_int, num_pages, fl, txid);
-    Some(MetaRec { page_id, ptype, meta_page, magic, version, pagesize, root, next_int, num_pages, fl, txid, hash_ok })
+    let legacy_ok = match b.get(96..128) {
+        Some(h) => {
+            use sha3::{Digest, Sha3_256};
+            let mut hasher = Sha3_256::new();
+            hasher.update(meta_page.to_be_bytes());
+            hasher.update(magic.to_be_bytes());
+            hasher.update(version.to_be_bytes());
+            hasher.update(pagesize.to_be_bytes());
+            hasher.update(root.to_be_bytes());
+            hasher.update(next_int.to_be_bytes());
+            hasher.update(num_pages.to_be_bytes());
+            hasher.update(fl.to_be_bytes());
+            hasher.update(txid.to_be_bytes());
+            hasher.finalize()[..] == h[..]
+        }
+        None => false,
+    };
+    Some(MetaRec { page_id, ptype, meta_page, magic, version, pagesize, root, next_int, num_pages, fl, txid, hash_ok,
+                   legacy_ok })
 }
 
 impl MetaRec {
     /// what the pinned code accepts as a usable header
     pub fn valid(&self) -> bool {
-        self.hash_ok && self.ptype == T_META
+        (self.hash_ok || self.legacy_ok) && self.ptype == T_META
     }
     pub fn json(&self) -> Value {
         json!({"pid": self.page_id, "ptype": self.ptype, "slot": self.meta_page, "magic_ok": self.magic == 0x00AB_CDEF,
                "version": self.version, "pagesize": self.pagesize, "root": self.root, "ctr": self.next_int,
-               "np": self.num_pages, "fl": self.fl, "txid": self.txid, "hash_ok": self.hash_ok})
+               "np": self.num_pages, "fl": self.fl, "txid": self.txid, "hash_ok": self.hash_ok || self.legacy_ok,
+               "legacy": self.legacy_ok && !self.hash_ok})
     }
 }
 
